@@ -244,7 +244,7 @@ pub fn run_c01(out: &mut Out, rng: &mut Rng, thorough: bool, only: Option<&str>)
             s.whole(&e);
         }
         // injected states: counts that only multi-GiB inputs reach
-        let k = if thorough { 180 } else { 45 };
+        let k = if thorough { 192 } else { 48 };
         for j in 0..k {
             let st = craft_state(*v, rng, j);
             s.inject(1, &st);
@@ -288,7 +288,7 @@ pub fn craft_state(v: &dyn Var, rng: &mut Rng, recipe: usize) -> VerifGeneratorS
         let hi = (c + w).min(u32::MAX as u64);
         rng.range(lo, hi) as u32
     };
-    match recipe % 15 {
+    match recipe % 16 {
         0 => {
             for b in bk.iter_mut().take(nb) {
                 *b = rng.below(16) as u32;
@@ -417,6 +417,20 @@ pub fn craft_state(v: &dyn Var, rng: &mut Rng, recipe: usize) -> VerifGeneratorS
             for i in (1..nb).rev() {
                 let j = rng.below(i as u64 + 1) as usize;
                 bk.swap(i, j);
+            }
+        }
+        15 => {
+            // sparse AND huge: exactly k non-zero buckets around the half / quarter thresholds, all of them at even
+            // (odd on later rounds) indices with empty neighbours, holding values with the top bit set
+            let k = [nb / 2 - 1, nb / 2, nb / 2 + 1, nb / 4 - 1, nb / 4, nb / 4 + 1][(recipe / 16) % 6];
+            let parity = (recipe / 96) % 2;
+            let mut slots: Vec<usize> = (0..nb / 2).map(|i| 2 * i + parity).collect();
+            for i in (1..slots.len()).rev() {
+                let j = rng.below(i as u64 + 1) as usize;
+                slots.swap(i, j);
+            }
+            for &i in slots.iter().take(k.min(nb / 2)) {
+                bk[i] = *rng.pick(&[u32::MAX, 0x8000_0001, 0x8000_0000, 0xc000_0000]);
             }
         }
         _ => {
@@ -682,6 +696,12 @@ pub fn run_c10(out: &mut Out, rng: &mut Rng, thorough: bool, only: Option<&str>)
             s.inject(1, &st);
             s.fin(1);
         }
+        for j in 0..(if thorough { 12 } else { 6 }) {
+            let mut st = craft_state(*v, rng, 15 + 16 * j); // sparse and huge, one threshold each
+            st.len = *rng.pick(&[1000u32, 65_536, 0x7fff_fffc]);
+            s.inject(1, &st);
+            s.fin(1);
+        }
         for j in 0..(if thorough { 40 } else { 8 }) {
             let _ = j;
             let mut st = craft_state(*v, rng, 10); // the sparse recipe (its fill count is drawn afresh each time)
@@ -771,7 +791,7 @@ pub fn run_agg(out: &mut Out, rng: &mut Rng, thorough: bool, only: Option<&str>)
             continue;
         }
         let nb = v.nb();
-        for j in 0..(if thorough { 120 } else { 30 }) {
+        for j in 0..(if thorough { 128 } else { 32 }) {
             let st = craft_state(v, rng, j);
             let bk = &st.buckets[..nb];
             // quartiles: the exact ones, and arbitrary q1 <= q2 <= q3 (the back ends must not depend on exactness)
